@@ -389,7 +389,7 @@ pub fn run(ctx: &Ctx, rep: &Report) -> Meta {
         rule: "honest (suite, key, header, msgs, signature) then the mutation catalogue enumerated per case: message byte change / delete / prefix at every position, \
                insert (random, empty, neighbour) at every position 0..=L, extension by 1..=3, swap and replace-by-other of every pair with different contents (all pairs for L<=12), \
                header edits as octet strings, pk in {other key, pk+G2, -pk}, every single-bit flip of the 80 signature octets (all 640 for L<=12), cross-suite, cross-interface in both directions; \
-               oracle: every mutated verification (or decoding) returns Err; non-trivial = honest case with >= 5 mutation families executed; evaluations = mutated verifications"
+               the same catalogue under contention in a cold process, re-priming with the honest verification before the spelling / suite / interface families, all pairs swapped for half of the fixed shapes up to L = 33; oracle: every mutated verification (or decoding) returns Err; non-trivial = honest case with >= 5 mutation families executed; evaluations = mutated verifications"
             .into(),
         assumptions: vec![
             "accidental acceptance of a changed statement would need a hash collision (2^-128)".into(),
